@@ -375,7 +375,7 @@ func TestC07(t *testing.T) {
 			}
 			defer conn.Close()
 			_ = conn.SetDeadline(time.Now().Add(respDeadline)) // generous: only a wedged server runs into it
-			go func() { _, _ = conn.Write(req) }() // large requests must not block on the pipe
+			go func() { _, _ = conn.Write(req) }()             // large requests must not block on the pipe
 			br := bufio.NewReader(conn)
 			resp, err := readStrict(br)
 			runtime.ReadMemStats(&ms2)
